@@ -2,6 +2,7 @@ package props
 
 import (
 	"bytes"
+	"context"
 	"fmt"
 	"io"
 	"reflect"
@@ -51,6 +52,25 @@ type c06Big struct {
 	U8 uint8
 }
 
+// c06CtxU implements only the context-aware unmarshaler interface.
+type c06CtxU struct{ got []byte }
+
+func (u *c06CtxU) UnmarshalJSON(ctx context.Context, b []byte) error {
+	u.got = append(u.got[:0], b...)
+	return nil
+}
+
+// c06Ctx mixes plain, context-aware and text unmarshalers as members, by value and by pointer.
+type c06Ctx struct {
+	A zoo.UP    `json:"a"`
+	B *zoo.UP   `json:"b"`
+	C c06CtxU   `json:"c"`
+	D *c06CtxU  `json:"d"`
+	E zoo.UT    `json:"e"`
+	F []c06CtxU `json:"f"`
+	G map[string]*zoo.UP
+}
+
 func c06Entries() []c06Entry {
 	dec := func(mk func() any) func([]byte) {
 		return func(b []byte) { gojson.Unmarshal(b, mk()) }
@@ -98,6 +118,23 @@ func c06Entries() []c06Entry {
 		{"Unmarshal:Tags", dec(func() any { return &zoo.Tags{} })},
 		{"Unmarshal:EmbShadow", dec(func() any { return &zoo.EmbShadow{} })},
 		{"UnmarshalNoEscape:big-struct", func(b []byte) { gojson.UnmarshalNoEscape(b, &c06Big{}) }},
+		// the context entry points with plain and context-aware unmarshalers (the decoder has to call
+		// the interface the type implements, not the one that matches the entry point)
+		{"UnmarshalContext:Unmarshaler", func(b []byte) { gojson.UnmarshalContext(context.Background(), b, &zoo.UP{}) }},
+		{"UnmarshalContext:big-struct", func(b []byte) { gojson.UnmarshalContext(context.Background(), b, &c06Big{}) }},
+		{"UnmarshalContext:iface", func(b []byte) { var v any; gojson.UnmarshalContext(context.Background(), b, &v) }},
+		{"UnmarshalContext:struct{ctx-unmarshaler}", func(b []byte) { gojson.UnmarshalContext(context.Background(), b, &c06Ctx{}) }},
+		{"Unmarshal:struct{ctx-unmarshaler}", func(b []byte) { gojson.Unmarshal(b, &c06Ctx{}) }},
+		{"Unmarshal:ctx-unmarshaler", func(b []byte) { gojson.Unmarshal(b, &c06CtxU{}) }},
+		{"Decoder.DecodeContext:struct{ctx-unmarshaler}/4", func(b []byte) {
+			gojson.NewDecoder(&cutReader{append([]byte{}, b...), 4}).DecodeContext(context.Background(), &c06Ctx{})
+		}},
+		{"Decoder.DecodeContext:big-struct/full", func(b []byte) {
+			gojson.NewDecoder(bytes.NewReader(b)).DecodeContext(context.Background(), &c06Big{})
+		}},
+		{"Decoder.DecodeWithOption(FirstWin):big-struct/6", func(b []byte) {
+			gojson.NewDecoder(&cutReader{append([]byte{}, b...), 6}).DecodeWithOption(&c06Big{}, gojson.DecodeFieldPriorityFirstWin())
+		}},
 		{"UnmarshalWithOption(FirstWin):big-struct", func(b []byte) { gojson.UnmarshalWithOption(b, &c06Big{}, gojson.DecodeFieldPriorityFirstWin()) }},
 		{"Decoder:iface/1", sdec(func() any { var v any; return &v }, 1)},
 		{"Decoder:iface/7", sdec(func() any { var v any; return &v }, 7)},
